@@ -155,6 +155,14 @@ PanicBad(e) ==
             THEN "C05_RegistrationKept" ELSE "C02_NoPanic"
       [] e.during \in {"init", "reginit", "markdone"} -> "C19_NoPanic"
       [] e.during = "chans" -> "C05_RegistrationKept"
+      \* the process died (core.run_harness closes the trace with this event): in a sequential script a deadlock
+      \* means that a call waited for a lock nobody can hold (the generator only requests free tables); when an
+      \* aborted transaction left an iterator behind, the abort is the suspect
+      [] e.during = "crash" ->
+            IF "kind" \in DOMAIN e /\ e.kind = "deadlock"
+            THEN (IF \E i \in DOMAIN iter : iter[i].st = "dead" \/ (iter[i].st = "closed" /\ iter[i].tx < 0)
+                  THEN "C10_C02_Deadlock" ELSE "C10_Deadlock")
+            ELSE "C01_C02_C03_C04_C05_C06_C07_C08_C09_C19_Crash"
       [] OTHER -> "C04_NoPanic"
 
 Bad(e) ==
